@@ -196,6 +196,21 @@ def judge(prog, extra, eh, x, ref_values, is_map):
                     out.append(({"symptom": "completed-value-missing"}, f"value {k} completed in an earlier step is missing from the FAILED result"))
             failing_tops = [n for n in fstep.ready if n in faulty_top]
             bad = _downstream(prog, failing_tops)
+            # "exactly the completed work": siblings of the failing node whose body completed in the failing step
+            # (async: every healthy sibling, the step gathers all of them; sync: those before the failing node in ready order)
+            spec_of = {s["id"]: s for s in prog["nodes"]}
+            done = {c.nid for c in x.h.calls if c.done_seq is not None and c.exc is None}
+            is_async = fstep.kind == "async"
+            first_i = min(fstep.ready.index(n) for n in failing_tops)
+            for i, n in enumerate(fstep.ready):
+                s = spec_of.get(n)
+                if s is None or s["kind"] != "fn" or n in faulty_top or (not is_async and i > first_i):
+                    continue
+                if n not in done:
+                    continue
+                for o in s.get("outs", []):
+                    if o in gouts and o not in bad and o not in vals:
+                        out.append(({"symptom": "completed-sibling-value-missing"}, f"{n} completed in the failing step (ready order {fstep.ready}) but its output {o} is missing from the FAILED result"))
             leaked = sorted(set(vals) & bad)
             if leaked:
                 out.append(({"symptom": "output-of-failing-or-downstream-node"}, f"FAILED values contain {leaked}, produced by the failing node or downstream of it"))
